@@ -93,7 +93,10 @@ pub struct Config {
     #[serde(skip_serializing_if = "Option::is_none")]
     pub migration_required_version: Option<String>,
     /// Product-specific opaque configuration
-    #[serde(skip_serializing_if = "Option::is_none")]
+    #[serde(
+        skip_serializing_if = "Option::is_none",
+        serialize_with = "serialize_sorted_map"
+    )]
     pub opaque_product_specific: Option<HashMap<String, String>>,
     /// Complex opaque configuration data
     #[serde(skip_serializing_if = "Option::is_none")]
@@ -102,7 +105,10 @@ pub struct Config {
     #[serde(skip_serializing_if = "Option::is_none")]
     pub product: Option<String>,
     /// Locale replacement mappings
-    #[serde(skip_serializing_if = "Option::is_none")]
+    #[serde(
+        skip_serializing_if = "Option::is_none",
+        serialize_with = "serialize_sorted_map"
+    )]
     pub replacement_locales: Option<HashMap<String, String>>,
     /// Default shared container subfolder
     #[serde(skip_serializing_if = "Option::is_none")]
@@ -129,7 +135,10 @@ pub struct Config {
     #[serde(skip_serializing_if = "Option::is_none")]
     pub extra_tags: Option<Vec<String>>,
     /// Install media configuration
-    #[serde(skip_serializing_if = "Option::is_none")]
+    #[serde(
+        skip_serializing_if = "Option::is_none",
+        serialize_with = "serialize_sorted_map"
+    )]
     pub install_media: Option<HashMap<String, MediaConfig>>,
 }
 
@@ -274,6 +283,22 @@ pub struct DiscInfo {
     /// Windows volume label
     #[serde(skip_serializing_if = "Option::is_none")]
     pub windows_volume_label: Option<String>,
+}
+
+/// Serialise an optional map with its keys in sorted order: a `HashMap` iterates in an order
+/// that differs between two maps with the same content, which made two builds of equal
+/// configs produce different bytes
+fn serialize_sorted_map<S, V>(
+    map: &Option<HashMap<String, V>>,
+    serializer: S,
+) -> Result<S::Ok, S::Error>
+where
+    S: serde::Serializer,
+    V: Serialize,
+{
+    map.as_ref()
+        .map(|m| m.iter().collect::<std::collections::BTreeMap<_, _>>())
+        .serialize(serializer)
 }
 
 impl ProductConfig {
